@@ -305,6 +305,30 @@ func (s *segment[T, O]) DecRef() {
 	}
 }
 
+// pinIfOpen adds one active reference only if the segment's resources are
+// already open (index != nil); it never reopens a closed segment. It runs under
+// s.mu so the bump is serialized against closeIfIdle / performDelete, exactly
+// like the open branch of snapshotInto. Reports whether a reference was taken.
+func (s *segment[T, O]) pinIfOpen() bool {
+	s.mu.Lock()
+	defer s.mu.Unlock()
+	if s.index == nil {
+		return false
+	}
+	atomic.AddInt32(&s.refCount, 1)
+	return true
+}
+
+// unpinnedSegment is what the non-reopening selector hands out for a closed
+// segment: the caller holds no reference on it, so its DecRef must be a no-op
+// instead of releasing a reference another goroutine acquired in the meantime.
+type unpinnedSegment[T TSTable, O any] struct {
+	*segment[T, O]
+}
+
+// DecRef is a no-op: no reference was taken for an unpinned segment.
+func (unpinnedSegment[T, O]) DecRef() {}
+
 // closeResourcesLocked closes the segment's series index and shards but keeps
 // its on-disk directory, leaving it closed (index==nil) and reopenable. Must be
 // called with s.mu held. Idempotent.
@@ -634,15 +658,12 @@ func (sc *segmentController[T, O]) selectSegments(timeRange timestamp.TimeRange,
 				}
 				s.lastAccessed.Store(now)
 			} else {
-				// Stats peek: pin only if already open, never reopen.
-				for {
-					current := atomic.LoadInt32(&s.refCount)
-					if current <= 0 {
-						break
-					}
-					if atomic.CompareAndSwapInt32(&s.refCount, current, current+1) {
-						break
-					}
+				// Stats peek: pin only if already open, never reopen. A closed
+				// segment is returned unpinned, wrapped so that the caller's
+				// DecRef cannot release somebody else's reference.
+				if !s.pinIfOpen() {
+					tt = append(tt, unpinnedSegment[T, O]{s})
+					continue
 				}
 			}
 			tt = append(tt, s)
@@ -947,7 +968,7 @@ func (sc *segmentController[T, O]) load(ctx context.Context, start, end time.Tim
 }
 
 func (sc *segmentController[T, O]) remove(deadline time.Time) (hasSegment bool, err error) {
-	ss, _ := sc.segments(context.Background(), false)
+	ss := sc.copySegments()
 	for _, s := range ss {
 		if s.Before(deadline) {
 			hasSegment = true
@@ -958,7 +979,6 @@ func (sc *segmentController[T, O]) remove(deadline time.Time) (hasSegment bool, 
 			sc.Unlock()
 			sc.l.Info().Stringer("segment", s).Msg("removed a segment")
 		}
-		s.DecRef()
 	}
 	return hasSegment, err
 }
@@ -980,7 +1000,7 @@ func (sc *segmentController[T, O]) getExpiredSegmentsTimeRange() *timestamp.Time
 		IncludeStart: true,
 		IncludeEnd:   false,
 	}
-	ss, _ := sc.segments(context.Background(), false)
+	ss := sc.copySegments()
 	for _, s := range ss {
 		if s.Before(deadline) {
 			if timeRange.Start.IsZero() {
@@ -988,7 +1008,6 @@ func (sc *segmentController[T, O]) getExpiredSegmentsTimeRange() *timestamp.Time
 			}
 			timeRange.End = s.End
 		}
-		s.DecRef()
 	}
 	return timeRange
 }
@@ -996,7 +1015,7 @@ func (sc *segmentController[T, O]) getExpiredSegmentsTimeRange() *timestamp.Time
 func (sc *segmentController[T, O]) deleteExpiredSegments(segmentSuffixes []string) int64 {
 	deadline := sc.clock.Now().Local().Add(-sc.opts.TTL.estimatedDuration())
 	var count int64
-	ss, _ := sc.segments(context.Background(), false)
+	ss := sc.copySegments()
 	sc.l.Info().Str("segment_suffixes", fmt.Sprintf("%s", segmentSuffixes)).
 		Str("ttl", fmt.Sprintf("%d(%s)", sc.opts.TTL.Num, sc.opts.TTL.Unit)).
 		Str("deadline", deadline.String()).
@@ -1024,7 +1043,6 @@ func (sc *segmentController[T, O]) deleteExpiredSegments(segmentSuffixes []strin
 				Str("segment_time_range", s.GetTimeRange().String()).
 				Msg("segment is not expired or not in the time range, skipping deletion")
 		}
-		s.DecRef()
 	}
 	return count
 }
